@@ -364,6 +364,13 @@ func targetedMassTimeout(c *core.Ctx, n int, retransmit bool) {
 }
 
 func c10Targeted(c *core.Ctx) {
+	c.Section("targeted-do-outlasts-wall-clock", 2, func(i int64, _ *gen.Rand) {
+		if c.Config != "rel" {
+			return // 11 s of waiting: once is enough
+		}
+		targetedDoOutlastsWallClock(c, int(i))
+		c.Distinct(uint64(i) | 33<<50)
+	})
 	c.Section("targeted-external-stop", 24, func(i int64, _ *gen.Rand) {
 		targetedExternalStop(c, int(i))
 		c.Distinct(uint64(i) | 16<<50)
@@ -1198,6 +1205,51 @@ func targetedClosedClientsLeaveNothing(c *core.Ctx, variant int) {
 			"clients_per_round": n, "live_objects_after_each_round": fmt.Sprint(counts), "variant": variant})
 	}
 	c.Count("targeted.closed_clients_counted_in_heap_objects", 4*n)
+}
+
+// targetedDoOutlastsWallClock: the life of a transaction is measured on the client's Clock. With a clock that stands still
+// (a simulation between two steps, a collector that runs on demand) nothing times out, however much wall-clock time
+// passes: a Do that is neither answered nor timed out has not returned after 10.6 s, and returns - after exactly one
+// handler invocation - once the response arrives.
+func targetedDoOutlastsWallClock(c *core.Ctx, variant int) {
+	c.Eval(1)
+	o := rigOpts{rto: time.Millisecond, noRetransmit: variant%2 == 1}
+	r, err := newRig(o)
+	if err != nil {
+		c.Violate("newclient", "newclient", err.Error())
+
+		return
+	}
+	id := seqTID(5)
+	t := r.newTx("Do", id, 24)
+	done := make(chan error, 1)
+	go func() { done <- r.do(t) }()
+	select {
+	case err := <-done:
+		c.Violate("do-returned-early", "do-returned-before-its-handler", map[string]interface{}{"options": o.String(), "ledger": r.describe(),
+			"problem": fmt.Sprintf("Do returned %v at once although its transaction was neither answered nor timed out on the client's clock", err)})
+		_ = r.close()
+
+		return
+	case <-time.After(10600 * time.Millisecond):
+	}
+	if len(t.invocations()) != 0 {
+		c.Violate("invocations", "handler-invoked-while-clock-stood-still", map[string]interface{}{"options": o.String(), "ledger": r.describe()})
+		_ = r.close()
+
+		return
+	}
+	r.deliver(id, response(id, "late-but-in-time"), true)
+	select {
+	case <-done:
+	case <-time.After(5 * time.Second):
+		c.Violate("call-never-returned", "never-returned:Do", map[string]interface{}{"options": o.String(), "ledger": r.describe(), "problem": "Do did not return after the response was delivered"})
+	}
+	_ = r.close()
+	for _, p := range r.judge(c10Oracles, true) {
+		c.Violate(p.Kind, p.Key, map[string]interface{}{"options": o.String(), "scenario": "Do across 10.6 s of wall-clock time on a standing clock", "problem": p.Detail, "ledger": r.describe()})
+	}
+	c.Count("targeted.do_outlasts_wall_clock", 1)
 }
 
 // fixedClock is a client Clock that does not follow the wall clock (a simulation's clock, a coarse cached clock).
